@@ -56,7 +56,7 @@ def stream(res):
 def eval_doc(args):
     ver, doc = args[:2]; which = args[2] if len(args) > 2 else 1
     import xmlschema
-    s = _S.get((ver, which)) or _S.setdefault((ver, which), _cls(ver)({1: docgen.SCHEMA, 2: SCHEMA2, 3: SCHEMA3}[which]))
+    s = _S.get((ver, which)) or _S.setdefault((ver, which), _cls(ver)({1: docgen.schema_for(ver), 2: SCHEMA2, 3: SCHEMA3}[which]))
     problems = []; reported = []
     try:
         e0 = [(e.reason, type(e).__name__) for e in s.iter_errors(doc)]
